@@ -23,6 +23,11 @@ def contract_tasks(module, prop, configure=None, names=None, tier="quick"):
                 t["configure_small"] = c.configure_small
             if getattr(c, "configure_small2", None):
                 t["configure_small2"] = c.configure_small2
+            if getattr(c, "shard_variants", False):
+                # one task per shape variant (independent; run in parallel)
+                for i in range(len(c.variants)):
+                    out.append({**t, "variant": i})
+                continue
             out.append(t)
     return out
 
